@@ -73,8 +73,8 @@ def runOpAudio (α : Type) [LT α] [LE α] [DecidableLT α] [DecidableLE α] [BE
     let l ← bytes; let i ← P.int; let j ← P.int
     pure s!"ok {outBytes (slice l i j)} {outBytes (sliceTo l i)} {outBytes (sliceFrom l j)}"
   | "a_index" => some do
-    let w ← P.nat; let r ← P.nat; let t ← qtime
-    pure s!"ok {indexAtTime t r w}"
+    let wv ← wav; let t ← qtime
+    pure s!"ok {wv.index t}"
   | "a_pack" => some do
     let w ← P.nat; let xs ← samples
     pure (outExc outBytes (convertToBytes xs w))
